@@ -13,7 +13,7 @@ CHECK = {
              "point evaluates to NaN / +inf / -inf.  The harness callback is the reference model of the history: every requested value must be "
              "a value of its own grid (exact), no point twice, at most max_evals + 3^d points, a returned non-finite value must end in an "
              "exception with no further callback batch, otherwise the returned steps are exactly the evaluated points with the returned values "
-             "(bitwise), igrid/param consistent, sorted non-decreasing, first = minimum observed.  tune: 20..120 distinct sample indices, "
+             "(bitwise), igrid/param consistent, sorted non-decreasing, first = minimum observed.  tune: 20..120 (30 %: 10..24, giving folds with a single sample) distinct sample indices, "
              "k-fold / random splitter with 2..10 folds, 0..2 parameter spaces, local-search / surrogate tuner with max_evals 10..40, pools of "
              "1 / 2 / 16 threads (NANO_VERIF_MAX_THREADS), optional table-driven delays at the pool's schedule points; the callback is thread "
              "safe, records (params, train, valid) and returns per-sample error/loss tensors that are a deterministic function of (params, "
